@@ -47,7 +47,7 @@ fn bat(c: &ConeSpec, s: &[f64], z: &[f64], ds: &[f64], dz: &[f64], mu: f64) -> O
     catch_unwind(AssertUnwindSafe(|| verif::nonsym_cone_battery(&cc, s, z, ds, dz, mu))).ok()
 }
 
-pub fn event(id: usize, c: &ConeSpec, s: &[f64], z: &[f64], ds: &[f64], dz: &[f64]) -> Value {
+pub fn event(id: usize, c: &ConeSpec, s: &[f64], z: &[f64], ds: &[f64], dz: &[f64], family: &str) -> Value {
     let n = s.len();
     let degree = match c { ConeSpec::GenPow(al, _) => al.len() + 1, _ => 3 } as f64;
     let mu = dot(s, z) / degree;
@@ -100,7 +100,8 @@ pub fn event(id: usize, c: &ConeSpec, s: &[f64], z: &[f64], ds: &[f64], dz: &[f6
                     _ => ok = false,
                 }
             }
-            if ok { put("primal_grad_is_derivative", dist(&b0.grad_primal, &gp), 1e-5 * (norm(&b0.grad_primal) + 1.0 / ss)); }
+            // (next to the boundary a finite-difference stencil of this width is not inside the region where it means anything)
+            if ok && family != "near_boundary" { put("primal_grad_is_derivative", dist(&b0.grad_primal, &gp), 1e-5 * (norm(&b0.grad_primal) + 1.0 / ss)); }
             let zt: Vec<f64> = b0.grad_primal.iter().map(|v| -v).collect();
             if let Some(b1) = bat(c, s, &zt, ds, dz, mu) {
                 if b1.dual_feasible && !b1.grad_dual.is_empty() {
@@ -153,7 +154,7 @@ pub fn event(id: usize, c: &ConeSpec, s: &[f64], z: &[f64], ds: &[f64], dz: &[f6
         } else { put("start_is_central", f64::INFINITY, 0.0); }
     }
     json!({"ev": "NonsymCone", "id": id, "run": id, "cone": c.tag(), "cone_spec": serde_json::to_value(c).unwrap(), "three_d": three_d,
-           "interior_accepted": b0.primal_feasible && b0.dual_feasible, "scaled_ok": b0.scaled_dual_ok, "pd_mode": pd_mode, "ids": Value::Object(ids),
+           "family": family, "interior_accepted": b0.primal_feasible && b0.dual_feasible, "scaled_ok": b0.scaled_dual_ok, "pd_mode": pd_mode, "ids": Value::Object(ids),
            "s": s, "z": z, "ds": ds, "dz": dz})
 }
 
@@ -235,11 +236,27 @@ pub fn record(seed: u64, count: usize) -> (Vec<Value>, Value) {
                 }
             }
         }
+        if id % 8 == 5 {
+            // s at relative distance 1e-2 .. 1e-7 from the boundary of K (the conjugate map and the scaling still have to close)
+            let rel = 10f64.powf(gen::unif(&mut rng, -7.0, -2.0));
+            match &c {
+                ConeSpec::Exp => { let lim = s[1] * (s[0] / s[1]).exp(); s[2] = lim * (1.0 + rel); }
+                ConeSpec::Pow(al) => { let lim = (s[0] / a).powf(*al) * (s[1] / a).powf(1.0 - al) * a; s[2] = if s[2] < 0.0 { -lim * (1.0 - rel) } else { lim * (1.0 - rel) }; }
+                ConeSpec::GenPow(al, _) => {
+                    let k = al.len();
+                    let lim: f64 = (0..k).map(|i| s[i].powf(al[i])).product();
+                    let nw = norm(&s[k..]).max(1e-300);
+                    for i in k..n { s[i] *= lim * (1.0 - rel) / nw; }
+                }
+                _ => {}
+            }
+            family = "near_boundary";
+        }
         let a = if family == "central" { norm(&s) } else { a };
         let ds: Vec<f64> = (0..n).map(|_| gen::normal(&mut rng) * 0.3 * a).collect();
         let dz: Vec<f64> = (0..n).map(|_| gen::normal(&mut rng) * 0.3 * b).collect();
         *fam.entry(format!("{}:{}", c.tag(), family)).or_default() += 1;
-        out.push(event(id, &c, &s, &z, &ds, &dz));
+        out.push(event(id, &c, &s, &z, &ds, &dz, family));
     }
     let lat = lattice_events(count, &mut rng, count / 2);
     fam.insert("lattice_membership".into(), lat.len());
